@@ -76,7 +76,7 @@ PROPS["C03"] = {
     "level_note": "trusted: jxlgen (entropy encoder, header writer, Modular model+encoder), comparison code in vcheck/src/c03.rs",
     "technique": "runtime differential monitor: independent Modular encoder/model -> real decoder, exact per-sample oracle",
     "quick": {"cases": 30000, "floor": 750, "time_budget": 300},
-    "thorough": {"cases": 2500000, "floor": 62500, "time_budget": 900},
+    "thorough": {"cases": 2500000, "floor": 30000, "time_budget": 900},
 }
 
 PROPS["C09"] = {
@@ -147,7 +147,7 @@ PROPS["C10"] = {
                    "count and aux box contents are compared exactly with an independent reference reader"),
     "level_note": "trusted: jxlgen::container writer + reference reader (cross-checked against each other per file), comparison code in c10.rs",
     "technique": "runtime differential monitor: independent container writer + reference reader vs ContainerParser event stream under many chunkings, and vs JxlImage aux box API",
-    "quick": {"cases": 3000000, "floor": 75000, "time_budget": 240},
+    "quick": {"cases": 2000000, "floor": 50000, "time_budget": 300},
     "thorough": {"cases": 100000000, "floor": 2500000, "time_budget": 900},
 }
 
